@@ -95,9 +95,11 @@ CONFIGS = {
     "iref":   (["tup", "refMaker"], [0, 1, 2], 6, 1, 1, ("A",)),
     "iref3":  (["tup", "refMaker", "refUser"], [0, 1, 2], 6, 1, 1, ("A",)),
     # deeper / wider variants (thorough)
-    "dyn6":   (["leaf:A", "leaf:B", "single", "top"], [0, 2], 6, 1, 1),
+    # (names are historical: depth 6 of dyn6 / gc3 has 1.5e6 distinct states and 2.8e6 replays, which does not finish in
+    # any reasonable time once every transition is replayed through the real crate; depth 5 does)
+    "dyn6":   (["leaf:A", "leaf:B", "single", "top"], [0, 2], 5, 1, 1),
     "outer":  (["leaf:A", "leaf:B", "single", "top", "tsum", "outer"], [0, 2], 5, 2, 1),
-    "gc3":    (["single", "byKey:0", "byKey:1", "top", "leaf:A", "leaf:B"], [0, 2], 6, 2, 1),
+    "gc3":    (["single", "byKey:0", "byKey:1", "top", "leaf:A", "leaf:B"], [0, 2], 5, 2, 1),
     "twin6":  (["twin:a", "twin:b", "single", "byKey:0"], [1], 6, 1, 1),      # ([1, 2]: > 1e6 states, does not finish in 25 min)
 }
 
